@@ -10,15 +10,17 @@ def out(r, e=None, d=0): return dict(r=r, e=leaf(e) if e else NIL, d=d)
 def cE(v): return dict(t="errors", v=v)
 def cR(v): return dict(t="result", v=v)
 def cIf(v): return dict(t="if", v=v)
+def cT(v): return dict(t="types", v=v)
 
 BR1 = dict(fthr=1, fcap=1, frate=0, fexec=0, period=0, sthr=0, scap=0, delay=1000)
 BR2 = dict(fthr=2, fcap=2, frate=0, fexec=0, period=0, sthr=0, scap=0, delay=1000)
 BR23 = dict(fthr=2, fcap=3, frate=0, fexec=0, period=0, sthr=2, scap=2, delay=0)   # re-closes: delay 0, needs 2 successes
 BRT = dict(fthr=2, fcap=2, frate=0, fexec=2, period=20, sthr=0, scap=0, delay=3)    # 2 failures within 20 units; open for 3 units
+BRR2 = dict(fthr=0, fcap=0, frate=50, fexec=2, period=20, sthr=0, scap=0, delay=1)   # 50 % of 2: a half-open window of 1 failure + 1 success is AT the threshold
 BRR = dict(fthr=0, fcap=0, frate=50, fexec=2, period=20, sthr=2, scap=3, delay=2)   # 50 % of >= 2 executions within 20 units; 2 of 3 trial successes close it
 
 def retry(max=2, h=(), a=(), rlf=False, dly=0, maxd=0): return dict(k="retry", max=max, h=TSet(h), a=TSet(a), rlf=rlf, dly=dly, maxd=maxd)
-def cb(id, cfg, h=()): return dict(k="cb", id=id, cfg=cfg, h=TSet(h))
+def cb(id, cfg, h=(), dfn=-1): return dict(k="cb", id=id, cfg=cfg, h=TSet(h), dfn=dfn)
 def rl(id, m, per=0): return dict(k="rl", id=id, m=m, per=per)
 def bh(id, max, pre=0): return dict(k="bh", id=id, max=max, pre=pre)
 def fb(fr="RF", fe=None, h=()): return dict(k="fb", fr=fr, fe=leaf(fe) if fe else NIL, h=TSet(h))
@@ -37,6 +39,8 @@ CATALOG = {
     "rpL":   retry(1, rlf=True),
     "rpA2":  retry(2, a=[cE("E1"), cE("E2")]),           # two abort errors in one registration
     "rpH2":  retry(1, h=[cE("E1"), cE("E2")]),           # two handled errors in one registration (E3 etc. unhandled)
+    "rpT":   retry(1, h=[cT("TV")]),                     # only errors of type TV are failures (HandleErrorTypes alone)
+    "rpTR":  retry(2, h=[cT("TP"), cR("R1")], a=[cT("TV")]),   # handled type + result, aborts on a type
     "rpU":   retry(-1, a=[cE("E2")]),                    # unlimited
     "rp3":   retry(3),
     "rpW":   retry(3, dly=2),                            # three retries two units apart
@@ -48,6 +52,8 @@ CATALOG = {
     "cbC":   cb("cbC", BR23, h=[cE("E1")]),
     "cbT":   cb("cbT", BRT),                              # time-based window, short open delay: reopening / trial executions inside a retry loop
     "cbR":   cb("cbR", BRR),
+    "cbDF":  cb("cbDF", BRT, dfn=5),                      # a delay function that asks for 5 units (the configured delay is 3): also on re-opening after a failed trial
+    "cbR2":  cb("cbR2", BRR2),
     "rl2":   rl("rl2", 2),
     "rlP":   rl("rlP", 1, per=3),                        # one permit per period of 3 units: refusals and admissions across period boundaries
     "bh1":   bh("bh1", 1),
@@ -56,6 +62,8 @@ CATALOG = {
     "fbE":   fb(fr="R0", fe="EFB"),
     "fbH":   fb(h=[cE("E1")]),
     "fbH2":  fb(h=[cE("E2"), cE("E1")]),                 # two handled errors in one registration
+    "fbT":   fb(h=[cT("TP")]),                           # only errors of type *TP are handled
+    "cbTy":  cb("cbTy", BR1, h=[cT("TV")]),               # a breaker that only counts TV errors
     "fbX":   fb(h=[cE("ErrExceeded"), cR("R1")]),
     "fbO":   fb(h=[cE("ErrOpen")]),
     "fbHE":  fb(fr="R0", fe="EFB", h=[cE("E1")]),        # its own output is an error it does not handle: verdict success
@@ -68,6 +76,7 @@ CATALOG = {
     "cK":    cache("cK"),
     "cIf":   cache("cIf", ifc=[cIf("p1")]),
     "cIfE":  cache("cIfE", ifc=[cE("E1")]),              # negative caching: stores the (zero) result of E1 failures
+    "cIf2":  cache("cIf2", ifc=[cIf("p1"), cIf("p2")]),   # two CacheIf registrations: either one makes a result cacheable
     "cNoKey": cache("cNoKey", key=""),
     "to":    to(),
     "hg":    hg(),                                      # default: cancel on any result
@@ -77,6 +86,7 @@ CATALOG = {
 
 OUTS4 = [out("R0"), out("R1"), out("R0", "E1"), out("R0", "E2")]
 OUTS3 = [out("R1"), out("R0", "E1"), out("R0", "E2")]
+OUTS_TY = [out("R1"), out("R0", "E1"), out("R0", "TV"), out("R0", "TP")]     # typed errors next to a sentinel
 OKOUT = out("R2")
 
 
